@@ -4,8 +4,8 @@
    [complete_procedure_stmt_gap]  position in the gap in front of a variable declaration, a top-level
         statement of the body or the closing brace: the statement proposals - `var` starters in front
         iff no statement other than `;` stands in front of the gap;
-   [complete_procedure_colon]     position in the gap behind ANY `:` of the declaration (parameter or
-        variable declaration): all type entries of the table. *)
+   [complete_procedure_tpos]      position in the gap behind ANY `:` or `of` of the declaration (parameter
+        or variable declaration): all type entries of the table. *)
 From Coq Require Import PeanoNat NArith Lia List Bool.
 From Spl Require Import Proofs.GrammarBase Proofs.GrammarExpr Proofs.GrammarStmt.
 From Spl Require Import Proofs.GrammarProofs Spec.Typing Model.Errors Proofs.SemProofs Proofs.TypingProofs.
@@ -23,7 +23,7 @@ Lemma complete_procedure_body pd position toks g last t flag :
   complete_procedure pd position toks g =
     if flag then complete_statements (pd_stmts pd) position toks last false (get_local_table pd g) g
     else ROk (match tk last with
-              | Colon => Some (search_types g)
+              | Colon | KOf => Some (search_types g)
               | Semic | LCurly => Some ([snip_var; item_var] ++ new_stmt (get_local_table pd g) g)
               | _ => None
               end).
@@ -34,7 +34,7 @@ Lemma complete_procedure_sig pd position toks g last t :
   complete_procedure pd position toks g =
     ROk (match tk last with
          | LParen | Comma => Some [item_ref]
-         | Colon => Some (search_types g)
+         | Colon | KOf => Some (search_types g)
          | _ => None
          end).
 Proof. unfold complete_procedure. intros -> -> ->. reflexivity. Qed.
@@ -174,7 +174,7 @@ Proof.
   assert (Hfalse : has_real b1 = false ->
             (if has_real b1 then complete_statements (pd_stmts (the_proc dd)) position sl tprev false (get_local_table (the_proc dd) G) G
              else ROk (match tk tprev with
-                       | Colon => Some (search_types G)
+                       | Colon | KOf => Some (search_types G)
                        | Semic | LCurly => Some ([snip_var; item_var] ++ new_stmt (get_local_table (the_proc dd) G) G)
                        | _ => None
                        end)) =
@@ -209,21 +209,19 @@ Proof.
   - right. split; [exact Hge|]. now rewrite nth_error_app2 in H.
 Qed.
 
-Definition nocolon (k : kind) : Prop := k <> Colon.
+(* `:` and `of` occur in the parameter list and in the variable declarations only *)
+Definition tpos_kind (k : kind) : Prop := k = Colon \/ k = KOf.
 
-Lemma nocolon_nth l j : Forall nocolon l -> nth_error l j = Some Colon -> False.
-Proof. intros H Hn. apply nth_error_In in Hn. rewrite Forall_forall in H. exact (H _ Hn eq_refl). Qed.
+Lemma nonglobal_nth l j k : Forall nonglobal l -> tpos_kind k -> nth_error l j = Some k -> False.
+Proof.
+  intros H Hk Hn. apply nth_error_In in Hn. rewrite Forall_forall in H. specialize (H _ Hn).
+  destruct Hk as [-> | ->]; discriminate H.
+Qed.
 
-Lemma nonglobal_nocolon l : Forall nonglobal l -> Forall nocolon l.
-Proof. apply Forall_impl. intros k H ->. discriminate H. Qed.
-
-Lemma nocolon_cm c : Forall nocolon (cm c).
-Proof. apply nonglobal_nocolon, nonglobal_cm. Qed.
-
-Lemma complete_procedure_colon c1 c2 x c3 ps c4 c5 vs b c6 (sl : list token) G position k tprev tnext :
+Lemma complete_procedure_tpos c1 c2 x c3 ps c4 c5 vs b c6 (sl : list token) G position k tprev tnext :
   let dd := DProc c1 c2 x c3 ps c4 c5 vs b c6 in
   toks_sorted sl = true -> map tk sl = fl_decl dd ->
-  nth_error sl k = Some tprev -> tk tprev = Colon -> nth_error sl (S k) = Some tnext ->
+  nth_error sl k = Some tprev -> tpos_kind (tk tprev) -> nth_error sl (S k) = Some tnext ->
   (ts tprev < position)%N -> (te tprev <= position)%N -> (position < ts tnext)%N ->
   complete_procedure (the_proc dd) position sl G = ROk (Some (search_types G)).
 Proof.
@@ -239,31 +237,46 @@ Proof.
   pose proof (gap_after sl (S k) tnext position Hs Hn H3) as Hafter.
   assert (Htb : token_before sl position = Some tprev) by (apply (token_before_sorted sl k tprev tnext); try assumption; lia).
   destruct (sig_end_found c1 c2 x c3 ps c4 c5 vs b c6 sl Hk) as [rp [Hrp [Hkrp Hfind]]]. fold sg in Hrp.
-  (* where is the colon ? *)
-  assert (Hkk : nth_error (fl_decl dd) k = Some Colon).
-  { rewrite <- Hk, <- Hc. now apply map_nth_error. }
+  (* where is the token ? *)
+  assert (Hkk : nth_error (fl_decl dd) k = Some (tk tprev)).
+  { rewrite <- Hk. now apply map_nth_error. }
   unfold dd in Hkk. rewrite fl_proc, proc_head_sig, <- app_assoc in Hkk. fold sg in Hkk.
   apply nth_app_cases in Hkk as [[Hlt _] | [Hge Hkk]].
   - (* in the signature *)
     fold sg in Hlt.
     assert (Hsig : (position <? ts rp)%N = true).
     { pose proof (Hafter _ rp Hrp ltac:(lia)). destruct (N.ltb_spec position (ts rp)); [reflexivity | lia]. }
-    rewrite (complete_procedure_sig _ position sl G tprev rp Htb Hfind Hsig), Hc. reflexivity.
+    rewrite (complete_procedure_sig _ position sl G tprev rp Htb Hfind Hsig).
+    destruct Hc as [-> | ->]; reflexivity.
   - fold sg in Hge, Hkk.
-    assert (Hne : k <> sg). { intros ->. rewrite Hrp in Hp. injection Hp as <-. rewrite Hkrp in Hc. discriminate Hc. }
+    assert (Hne : k <> sg). { intros ->. rewrite Hrp in Hp. injection Hp as <-. rewrite Hkrp in Hc. destruct Hc; discriminate. }
     assert (Hsig : (position <? ts rp)%N = false).
     { destruct (Hbefore _ rp Hrp ltac:(lia)) as [Hle _]. destruct (N.ltb_spec position (ts rp)); [lia | reflexivity]. }
     cbn [app] in Hkk. destruct (k - sg) as [|j] eqn:Ej; [lia|]. cbn [nth_error] in Hkk.
-    rewrite <- app_assoc in Hkk. apply nth_app_cases in Hkk as [[_ Hkk] | [Hge2 Hkk]]; [destruct (nocolon_nth _ _ (nocolon_cm c5) Hkk)|].
+    rewrite <- app_assoc in Hkk. apply nth_app_cases in Hkk as [[_ Hkk] | [Hge2 Hkk]]; [destruct (nonglobal_nth _ _ _ (nonglobal_cm c5) Hc Hkk)|].
     rewrite cm_length in Hge2, Hkk. cbn [app] in Hkk.
-    destruct (j - len c5) as [|j2] eqn:Ej2; [discriminate Hkk|]. cbn [nth_error] in Hkk.
+    destruct (j - len c5) as [|j2] eqn:Ej2; [injection Hkk as Hkk; rewrite <- Hkk in Hc; destruct Hc; discriminate|].
+    cbn [nth_error] in Hkk.
     apply nth_app_cases in Hkk as [[Hlt2 _] | [_ Hkk]].
     + (* in the variable declarations *)
-      rewrite (complete_procedure_body _ position sl G tprev rp false Htb Hfind Hsig), Hc; [reflexivity|].
-      unfold dd. rewrite the_proc_stmts. fold h.
-      apply (in_stmts_after sl position (S k) Hafter); lia.
+      rewrite (complete_procedure_body _ position sl G tprev rp false Htb Hfind Hsig).
+      * destruct Hc as [-> | ->]; reflexivity.
+      * unfold dd. rewrite the_proc_stmts. fold h. apply (in_stmts_after sl position (S k) Hafter); lia.
     + apply nth_app_cases in Hkk as [[_ Hkk] | [_ Hkk]];
-        [destruct (nocolon_nth _ _ (nonglobal_nocolon _ (proj2 stmt_nonglobal b)) Hkk)|].
-      apply nth_app_cases in Hkk as [[_ Hkk] | [_ Hkk]]; [destruct (nocolon_nth _ _ (nocolon_cm c6) Hkk)|].
-      destruct (j2 - _ - _ - _) as [|[|?]]; discriminate Hkk.
+        [destruct (nonglobal_nth _ _ _ (proj2 stmt_nonglobal b) Hc Hkk)|].
+      apply nth_app_cases in Hkk as [[_ Hkk] | [_ Hkk]]; [destruct (nonglobal_nth _ _ _ (nonglobal_cm c6) Hc Hkk)|].
+      destruct (j2 - _ - _ - _) as [|[|?]]; try discriminate Hkk.
+      injection Hkk as Hkk; rewrite <- Hkk in Hc; destruct Hc; discriminate.
+Qed.
+
+Lemma complete_procedure_colon c1 c2 x c3 ps c4 c5 vs b c6 (sl : list token) G position k tprev tnext :
+  let dd := DProc c1 c2 x c3 ps c4 c5 vs b c6 in
+  toks_sorted sl = true -> map tk sl = fl_decl dd ->
+  nth_error sl k = Some tprev -> tk tprev = Colon -> nth_error sl (S k) = Some tnext ->
+  (ts tprev < position)%N -> (te tprev <= position)%N -> (position < ts tnext)%N ->
+  complete_procedure (the_proc dd) position sl G = ROk (Some (search_types G)).
+Proof.
+  intros dd Hs Hk Hp Hc Hn H1 H2 H3.
+  exact (complete_procedure_tpos c1 c2 x c3 ps c4 c5 vs b c6 sl G position k tprev tnext Hs Hk Hp
+           (or_introl Hc) Hn H1 H2 H3).
 Qed.
